@@ -138,7 +138,9 @@ def seeded(ctx, prop):
     from . import seedtest
     n = 0
     for sid, e in sorted(exp.items()):
-        if prop not in e.get("detected_by", {}):
+        # the changes written against THIS property (a change that another property's check also reports is re-applied by
+        # that property's thorough tier only if it was written against it)
+        if e.get("breaks") != prop or prop not in e.get("detected_by", {}):
             continue
         patch = os.path.join(VERIF, "seeded", sid, "patch.diff")
         n += 1
